@@ -219,7 +219,9 @@ fn main() {
 
     // ---- Miri pass (free running, real crate) ------------------------------------------------
     let mut race_found = false;
-    let miri_cfgs: Vec<(u32, usize)> = if quick { vec![(2, 2)] } else { vec![(2, 2), (3, 3)] };
+    // more than 3 threads: all threads create their first node before any creates its second (what the
+    // library registers per thread exists for all of them, e.g. a registry that grows)
+    let miri_cfgs: Vec<(u32, usize)> = if quick { vec![(2, 2), (9, 2)] } else { vec![(2, 2), (3, 3), (9, 2), (17, 3), (33, 2)] };
     let mut miri_summ = vec![];
     for (t, k) in miri_cfgs {
         match miri_pass(t, k) {
